@@ -90,7 +90,7 @@ def gen_history(rng, n):
 
 
 def generate(rng, tier):
-    n = 250 if tier == "quick" else 2500
+    n = 800 if tier == "quick" else 15000
     for i in range(n):
         yield gen_history(rng, rng.choice([4, 8, 12, 20, 40]))
 
